@@ -64,4 +64,113 @@ example : (match partialTrace d23Witness [0] [2, 2] with
     | .ok m => m.e 0 0 == ⟨1, 0⟩ && m.e 1 1 == ⟨0, 0⟩ && m.n == 2
     | .error _ => false) = true := by decide +kernel
 
+
+/-! ## (ii) `fidelity`: symmetric; the pure-state branch is the clipped overlap -/
+
+/-- **Symmetry**, every pair of equal size: same exception class, same branch, same value in both argument orders
+    (`tr(ρσ) = tr(σρ)` in ℚ[i]; the branch conditions are symmetric) -/
+theorem fidelity_symmetric (ρ σ : Mat) (h : ρ.n = σ.n) : fidelity ρ σ = fidelity σ ρ := fidelity_symm ρ σ h
+
+/-- **Pure-state branch**: if both arguments pass `is_density_matrix` and at least one passes `is_pure`, the result is
+    `Re tr(ρσ)` clipped to `[0,1]` -/
+theorem fidelity_pure_is_clipped_overlap (ρ σ : Mat) (hρ : isDensityMatrix ρ = true) (hσ : isDensityMatrix σ = true)
+    (hp : isPure ρ = true ∨ isPure σ = true) : fidelity ρ σ = .ok (.val (clip01 (ρ.mul σ).trace.re)) :=
+  fidelity_pure_branch ρ σ hρ hσ hp
+
+/-- every value the model's `fidelity` returns lies in `[0,1]` -/
+theorem fidelity_in_unit_interval (ρ σ : Mat) (f : Rat) (h : fidelity ρ σ = .ok (.val f)) : 0 ≤ f ∧ f ≤ 1 :=
+  fidelity_range ρ σ f h
+
+/-- non-vacuity: `|+⟩⟨+|` and `|0⟩⟨0|` are density matrices, pure, with fidelity `1/2`; a state with itself gives 1 -/
+def plusDm : Mat := Mat.ofRows 2 #[#[⟨1/2, 0⟩, ⟨1/2, 0⟩], #[⟨1/2, 0⟩, ⟨1/2, 0⟩]]
+example : isDensityMatrix plusDm = true ∧ isPure plusDm = true ∧ isDensityMatrix ket0dm = true := by decide +kernel
+example : fidelity plusDm ket0dm = .ok (.val (1/2)) ∧ fidelity plusDm plusDm = .ok (.val 1) := by decide +kernel
+/-- a mixed pair goes to the Uhlmann branch, for which the model has no value -/
+def halfDm : Mat := Mat.ofRows 2 #[#[⟨1/2, 0⟩, 0], #[0, ⟨1/2, 0⟩]]
+example : fidelity halfDm halfDm = .ok .uhlmann := by decide +kernel
+
+/-! ## (iii) Commuting pairs: the closed forms have every property asked of fidelity and trace distance (any dimension) -/
+
+section commuting
+open Graphiq.Commuting
+variable {ι : Type} [Fintype ι]
+
+/-- `F = (Σ √(p_i q_i))²` lies in `[0,1]`, is symmetric, and is 1 exactly for equal spectra -/
+theorem commuting_fidelity_properties {p q : ι → ℝ} (hp : IsProb p) (hq : IsProb q) :
+    (0 ≤ F p q ∧ F p q ≤ 1) ∧ F p q = F q p ∧ (F p q = 1 ↔ p = q) :=
+  ⟨F_range hp hq, F_symm p q, F_eq_one_iff hp hq⟩
+
+/-- `T = ½ Σ |p_i − q_i|` is a metric bounded by 1 -/
+theorem commuting_trace_distance_is_metric {p q r : ι → ℝ} (hp : IsProb p) (hq : IsProb q) :
+    0 ≤ T p q ∧ T p q ≤ 1 ∧ T p q = T q p ∧ (T p q = 0 ↔ p = q) ∧ T p r ≤ T p q + T q r :=
+  ⟨T_nonneg p q, T_le_one hp hq, T_symm p q, T_eq_zero_iff p q, T_triangle p q r⟩
+
+/-- **Fuchs – van de Graaf** for commuting pairs: `1 − √F ≤ T ≤ √(1 − F)` -/
+theorem commuting_fuchs_van_de_graaf {p q : ι → ℝ} (hp : IsProb p) (hq : IsProb q) :
+    1 - Real.sqrt (F p q) ≤ T p q ∧ T p q ≤ Real.sqrt (1 - F p q) := fuchs_van_de_graaf hp hq
+
+/-- the rational numbers the driver computes for a commuting pair (`dm.comm`) are these real quantities:
+    eigenvalues `a_i²`, `b_i²` with `a_i, b_i ≥ 0` rational -/
+theorem model_closed_forms_are_F_and_T (d : Nat) (a b : Fin d → Rat) (ha : ∀ i, 0 ≤ a i) (hb : ∀ i, 0 ≤ b i) :
+    ((commFidelity (List.ofFn a) (List.ofFn b) : Rat) : ℝ) = F (fun i => ((a i : Rat) : ℝ) ^ 2) (fun i => ((b i : Rat) : ℝ) ^ 2) ∧
+    ((commTraceDist (List.ofFn fun i => a i ^ 2) (List.ofFn fun i => b i ^ 2) : Rat) : ℝ) =
+      T (fun i => ((a i : Rat) : ℝ) ^ 2) (fun i => ((b i : Rat) : ℝ) ^ 2) := by
+  refine ⟨commFidelity_cast d a b ha hb, ?_⟩
+  rw [commTraceDist_cast]
+  congr 1 <;> (funext i; push_cast; ring)
+
+/-- non-vacuity: the uniform distribution on two points is a spectrum -/
+example : IsProb (fun _ : Fin 2 => (1 / 2 : ℝ)) := ⟨fun _ => by norm_num, by simp⟩
+end commuting
+
+/-- the full statement for arbitrary (non-commuting) density matrices, kept visible.  It is **not expressible** in the
+    exact model (matrix square roots of irrational spectra) and is not proved: `uhlmann ρ σ` stands for
+    `(tr √(√ρ σ √ρ))²`, `tnorm` for the trace norm. -/
+def fidelity_and_trace_distance_statement (uhlmann tdist : Mat → Mat → ℝ) : Prop :=
+  ∀ ρ σ τ : Mat, ρ.n = σ.n → σ.n = τ.n → isDensityMatrix ρ = true → isDensityMatrix σ = true → isDensityMatrix τ = true →
+    uhlmann ρ σ = uhlmann σ ρ ∧ 0 ≤ uhlmann ρ σ ∧ uhlmann ρ σ ≤ 1 ∧ uhlmann ρ ρ = 1 ∧
+    tdist ρ τ ≤ tdist ρ σ + tdist σ τ ∧ tdist ρ σ ≤ 1 ∧
+    1 - Real.sqrt (uhlmann ρ σ) ≤ tdist ρ σ ∧ tdist ρ σ ≤ Real.sqrt (1 - uhlmann ρ σ)
+
+/-! ## (iv) `Infidelity` across representations -/
+
+/-- **Partial** (hypotheses = the facts "ρ(T) is a pure density matrix" and "the overlap lies in [0,1]", which hold for every
+    valid tableau by the cited tensor-lifting argument and are evaluated by the driver on every correspondence input; the
+    sign hypothesis is the region outside known finding D9).  With them, `Infidelity` returns the same value whether target
+    and state are held as tableaux, both as matrices, or target as matrix and state as tableau. -/
+theorem infidelity_representation_independent_partial (tt ts : Tab)
+    (hsign : ∀ k, k < ts.n → (ts.row (k + ts.n)).r = false)
+    (hdt : isDensityMatrix (stabilizerDensity tt) = true) (hds : isDensityMatrix (stabilizerDensity ts) = true)
+    (hp : isPure (stabilizerDensity tt) = true) (hov : 0 ≤ stabOverlap tt ts ∧ stabOverlap tt ts ≤ 1) :
+    infidelity stabOverlap (.dm (stabilizerDensity tt)) (.dm (stabilizerDensity ts)) = infidelity stabOverlap (.s tt) (.s ts) ∧
+    infidelity stabOverlap (.dm (stabilizerDensity tt)) (.s ts) = infidelity stabOverlap (.s tt) (.s ts) :=
+  infidelity_rep_independent tt ts hsign hdt hds hp hov
+
+/-- the full statement (no sign hypothesis) — **false for the code as it stands**, see `d9_sign_vector_ignored` -/
+def infidelity_representation_independent_statement : Prop :=
+  ∀ tt ts : Tab, tt.n = ts.n → tt.isSymplectic = true → ts.isSymplectic = true →
+    infidelity stabOverlap (.dm (stabilizerDensity tt)) (.s ts) = infidelity stabOverlap (.s tt) (.s ts)
+
+/-- with a zero sign vector the converter as coded is the true density matrix -/
+theorem converter_correct_without_signs (t : Tab) (h : ∀ k, k < t.n → (t.row (k + t.n)).r = false) :
+    stabilizerToDensityPure t = stabilizerDensity t := stabilizerToDensityPure_eq t h
+
+/-- **D9, refuted on a witness** (known finding): target `|0⟩⟨0|` as a matrix, state `|1⟩` as a tableau (stabilizer `−Z`).
+    `_stabilizer_to_density_pure` drops the sign, so `Infidelity` returns 0 — although the states are orthogonal: both
+    other representation combinations return 1. -/
+theorem d9_sign_vector_ignored :
+    infidelity stabOverlap (.dm ket0dm) (.s (Tab.ket1 1)) = .ok (.val 0) ∧
+    infidelity stabOverlap (.s (Tab.ket0 1)) (.s (Tab.ket1 1)) = .ok (.val 1) ∧
+    infidelity stabOverlap (.dm ket0dm) (.dm (stabilizerDensity (Tab.ket1 1))) = .ok (.val 1) := d9_witness
+
+/-- non-vacuity of the partial theorem: a Bell-type tableau (stabilizers `XX`, `ZZ`, no signs) meets its hypotheses -/
+def bellTab : Tab :=
+  Tab.ofRows 2 #[
+    PRow.ofArrays #[false,false] #[true,false] false false,
+    PRow.ofArrays #[false,true] #[false,false] false false,
+    PRow.ofArrays #[true,true] #[false,false] false false,
+    PRow.ofArrays #[false,false] #[true,true] false false]
+example : isDensityMatrix (stabilizerDensity bellTab) = true ∧ isPure (stabilizerDensity bellTab) = true ∧
+    stabOverlap bellTab bellTab = 1 ∧ stabOverlap bellTab (Tab.ket0 2) = 1/2 := by decide +kernel
+
 end Graphiq.C17
